@@ -36,7 +36,9 @@ class Workload(object):
             n = len(self.enum(tier))
             cap = self.quick if tier == 'quick' else self.thorough
             return n if cap is None else min(n, cap)
-        return self.quick if tier == 'quick' else self.thorough
+        # the per-workload numbers were sized on a slow machine; both tiers have room for more random cases on this one
+        scale = float(os.environ.get('VERIF_QUICK_SCALE', '3')) if tier == 'quick' else float(os.environ.get('VERIF_THOROUGH_SCALE', '4'))
+        return int((self.quick if tier == 'quick' else self.thorough) * scale)
 
 
 def main(argv=None):
